@@ -120,8 +120,11 @@ func (g *Gram) TM(name string, o TMOpts) string {
 				sb.WriteString("%empty")
 			}
 			markAt := -1
-			if o.Markers && i%3 == 0 {
+			if o.Markers && (i%3 == 0 || (len(r.RHS) > 0 && r.RHS[0] >= g.NT && r.RHS[0] != errorSym && i%2 == 0)) {
 				markAt = i % (len(r.RHS) + 1)
+				if len(r.RHS) > 0 && r.RHS[0] >= g.NT && r.RHS[0] != errorSym {
+					markAt = 0 // a marker in front of a leading nonterminal
+				}
 			}
 			for k, s := range r.RHS {
 				if k > 0 {
